@@ -100,15 +100,17 @@ def stripExt (ext s : String) : String := String.ofList (s.toList.take (s.length
 def stripLast (ext : String) : Path → Path
   | [] => []
   | [s] => [stripExt ext s]
-  | s :: rest => s :: stripLast ext rest
+  | s :: t :: rest => s :: stripLast ext (t :: rest)
+
+/-- the top-level files `init` / `init_typeset` keep their bare name -/
+def isSpecial : Path → Bool
+  | [s] => s = "init" || s = "init_typeset"
+  | _ => false
 
 /-- `smartPath.TypedNames` for one namespace: the name implied by a path relative to the generic path -/
 def typedNames (sp : SmartPath) (rel : Path) : List Name :=
   let parts := stripLast sp.extension rel
-  let special := match parts with
-    | [s] => s = "init" || s = "init_typeset"
-    | _ => false
-  if sp.moduleNameRelative && !special then [sp.moduleName :: parts] else [parts]
+  if sp.moduleNameRelative && !isSpecial parts then [sp.moduleName :: parts] else [parts]
 
 inductive EP where
   | invalid            -- `name.Parts()` panicked
@@ -119,7 +121,7 @@ inductive EP where
 def appendExt (ext : String) : Path → Path
   | [] => []
   | [s] => [s ++ ext]
-  | s :: rest => s :: appendExt ext rest
+  | s :: t :: rest => s :: appendExt ext (t :: rest)
 
 /-- `smartPath.EffectivePath` (`filepath.Join` is plain concatenation because `Parts()` admits identifiers only;
     a name without parts cannot occur) -/
